@@ -93,14 +93,33 @@ def expressible(fmt, cls, kinds):
     return True
 
 
+WEIGHTS = [0, -1, -2.5, 0.5, 3]
+DTYPES = ["bool", "int8", "uint8", "float64", "object"]     # besides the default int64
+
+
+def _fitting_dtypes(m):
+    vals = {v for r in m for v in r}
+    out = []
+    for dt in DTYPES:
+        if dt == "bool" and not vals <= {0, 1}:
+            continue
+        if dt == "uint8" and min(vals) < 0:
+            continue
+        out.append(dt)
+    return out
+
+
 ALPHABET = {"numpy": list(range(0, 34)), "clearn": list(range(-1, 7)), "pcalg": [0, 1, 2, 3]}
 
 RULE = ("rt: for ADMG, CPDAG, PAG every acyclic graph on 2 and 3 nodes over all per-pair configurations the class admits "
         "(ADMG incl. two and three edge types on a pair, PAG incl. -o / o-), 3 node insertion orders plus construction through "
         "the class constructor's per-type edge lists (each layer with its own node order), exported to all four "
-        "formats and re-imported (4 nodes sampled; thorough: more); mat: every zero-diagonal 2x2 matrix over each format's "
+        "formats and re-imported (4 nodes sampled; thorough: more), also with edge 'weight' attributes 0 / -1 / -2.5 / 0.5 / 3 "
+        "(every 2-node graph x each weight, every 3-node graph with random weights) and a sample with identity-hashed label "
+        "objects (_lab obj); mat: every zero-diagonal 2x2 matrix over each format's "
         "alphabet (numpy 0..33, causal-learn -1..6, pcalg 0..3) in 2 orders and every well-formed 3x3 matrix, import then "
-        "export; tet: Tetrad token lists for all such graphs through a scratch file (string labels, random line orientation); "
+        "export, the well-formed ones additionally as bool / int8 / uint8 / float64 / object arrays where the values fit (all "
+        "fitting dtypes for 2x2, one random dtype per 3x3); tet: Tetrad token lists for all such graphs through a scratch file (string labels, random line orientation); "
         "ts/tsarr: stationary directed and undirected ts graphs / lag arrays with 2 variables, max_lag<=2 exhaustive, 3 sampled. "
         "distinct by (kind, class, format, canonical graph or matrix); non-trivial = at least one edge / non-zero entry and "
         "the model defines an expected answer (the format can express the input / the matrix is well formed)")
@@ -169,11 +188,32 @@ def gen_cases(tier, rng):
                     # built through the constructor's per-type edge lists: every layer has its own node order
                     for k in range(2 if n == 3 else 1):
                         yield {"kind": "rt", "cls": cls, "g": dict(g, V=rng.choice(_orders(n, rng))), "ctor": rng.randrange(1 << 30)}
+                nonempty = bool(g["D"] or g["B"] or g["U"] or g["C"])
+                if nonempty:
+                    # edge 'weight' attributes (zero, negative, float) must not change what is exported
+                    if n == 2:
+                        for w in WEIGHTS:
+                            yield {"kind": "rt", "cls": cls, "g": dict(g, V=[0, 1]), "weights": [w]}
+                    else:
+                        yield {"kind": "rt", "cls": cls, "g": dict(g, V=rng.choice(_orders(n, rng))),
+                               "weights": [rng.choice(WEIGHTS) for _ in range(4)]}
                 for f in ("numpy", "clearn", "pcalg"):
                     if f == "pcalg" and cls == "ADMG":
                         continue
                     order = list(range(n)) if n == 2 else rng.choice(_orders(n, rng))
-                    yield {"kind": "mat", "fmt": f, "cls": cls, "order": order, "m": _gen_matrix(f, cls, g, order)}
+                    m = _gen_matrix(f, cls, g, order)
+                    yield {"kind": "mat", "fmt": f, "cls": cls, "order": order, "m": m}
+                    # the same well-formed matrix in the other array dtypes that can hold its values
+                    fits = _fitting_dtypes(m)
+                    for dt in (fits if n == 2 else [rng.choice(fits)]):
+                        yield {"kind": "mat", "fmt": f, "cls": cls, "order": order, "m": m, "dtype": dt}
+                if nonempty and n == 3 and rng.random() < 0.15:
+                    # identity-hashed label objects (a copied label would be a different node)
+                    yield {"kind": "rt", "cls": cls, "g": dict(g, V=rng.choice(_orders(n, rng))), "_lab": "obj",
+                           "ctor": rng.randrange(1 << 30) if rng.random() < 0.5 else None}
+                    f = rng.choice(["numpy", "clearn"] + ([] if cls == "ADMG" else ["pcalg"]))
+                    order = rng.choice(_orders(n, rng))
+                    yield {"kind": "mat", "fmt": f, "cls": cls, "order": order, "m": _gen_matrix(f, cls, g, order), "_lab": "obj"}
                 yield {"kind": "tet", "cls": cls, "order": rng.choice(_orders(n, rng)), "toks": _gen_tokens(cls, g, rng)}
         # 4 nodes sampled
         for i in range(150 if not thorough else 3000):
@@ -343,6 +383,18 @@ def _build(cls, g, case):
     return G, lab, inv
 
 
+def _set_weights(G, ws):
+    """give every edge of every layer a 'weight' attribute, cycling through ws in sorted edge order"""
+    if not ws:
+        return
+    i = 0
+    for name in sorted(G.get_graphs()):
+        lg = G.get_graphs()[name]
+        for a, b in sorted(lg.edges(), key=repr):
+            lg[a][b]["weight"] = ws[i % len(ws)]
+            i += 1
+
+
 def _quiet(f, *a, **kw):
     import contextlib
     import io
@@ -441,6 +493,7 @@ def run_impl(case):
     if k == "rt":
         cls, g = case["cls"], case["g"]
         G, lab, inv = _build(cls, g, case)
+        _set_weights(G, case.get("weights"))
         nodes = list(G.nodes)
         idx = [inv(x) for x in nodes]
         out = {}
@@ -465,13 +518,15 @@ def run_impl(case):
             out["mutated"] = True
         c2 = dict(case, _lab=case.get("_lab") if case.get("_lab") in ("str", "char") else "str")
         G2, lab2, inv2 = _build(cls, g, c2)
+        _set_weights(G2, case.get("weights"))
         out["tetrad"] = _tetrad_rt(cls, G2, inv2, sorted(g["V"]))
         return out
     if k == "mat":
         import numpy as np
         lab, inv = gr.labeler(case)
         nodes = [lab(a) for a in case["order"]]
-        A = np.array(case["m"])
+        A = np.array(case["m"], dtype={"bool": bool, "int8": np.int8, "uint8": np.uint8, "float64": np.float64,
+                                       "object": object, None: np.int64}[case.get("dtype")])
         H = _import(case["fmt"], case["cls"], A.copy(), nodes)
         out = {"g": _gobs(H, inv)}
         if list(H.nodes) != nodes:
@@ -591,9 +646,9 @@ def nontrivial(case, model):
 def key(case):
     k = case["kind"]
     if k == "rt":
-        return (k, case["cls"], gr.canon(case["g"]), case.get("ctor") is not None)
+        return (k, case["cls"], gr.canon(case["g"]), case.get("ctor") is not None, str(case.get("weights")), case.get("_lab"))
     if k == "mat":
-        return (k, case["cls"], case["fmt"], str(_canon_matrix(case["m"], case["order"])))
+        return (k, case["cls"], case["fmt"], str(_canon_matrix(case["m"], case["order"])), case.get("dtype"), case.get("_lab"))
     if k == "tet":
         return (k, case["cls"], str(_toks_obs(case["toks"])), len(case["order"]))
     return (k, case["directed"], case["ml"], str(case.get("st") or case.get("arr")))
